@@ -5,11 +5,13 @@ CONSTANTS MaxD, LCap
 \* ---- Efi corpus (C18): descriptor size x version x map length, all prefixes of the iteration ------------
 \* environment plan: create, then (len, next) past the naive count, size_hint, a clone, Debug
 EfiSizes == 0..MaxD
-EfiParamsSet == UNION { { [d |-> d, v |-> v, L |-> L] : L \in 0..Min(3 * d + 9, LCap) } : d \in EfiSizes, v \in {0, 1, 2} }
+\* atEnd: the map tag is the last one before the end tag, so that reading a descriptor that overlaps the end of the
+\* tag by more than 8 bytes leaves the region (and faults on the guard page)
+EfiParamsSet == UNION { { [d |-> d, v |-> v, L |-> L, atEnd |-> e] : L \in 0..Min(3 * d + 9, LCap), e \in BOOLEAN } : d \in EfiSizes, v \in {0, 1, 2} }
 EfiTag(p) == Override(Override(RawTag(17, 16 + p.L, 0), 8, U32Bytes(p.d)), 12, U32Bytes(p.v))
 EfiNaive(p) == Min(IF p.d = 0 THEN 4 ELSE p.L \div p.d, 4)
 EfiCase(p) ==
-  [mem |-> InfoImage(<<EfiTag(p), Neighbour>>), al |-> 0,
+  [mem |-> InfoImage(IF p.atEnd THEN <<Neighbour, EfiTag(p)>> ELSE <<EfiTag(p), Neighbour>>), al |-> 0,
    calls |-> <<[op |-> "load"], [op |-> "efi_areas", it |-> 0], [op |-> "len", it |-> 0],
                [op |-> "size_hint", it |-> 0], [op |-> "next", it |-> 0], [op |-> "clone", it |-> 0, to |-> 1]>>
              \o Concat([i \in 1..(EfiNaive(p) + 1) |-> <<[op |-> "len", it |-> 0], [op |-> "next", it |-> 0]>>])
